@@ -27,26 +27,38 @@ def predicate(g, mid, post):
 
 def run(res, proofs_ok, proofs_why, only=None):
     cases = only if only is not None else list(range(65536))
-    lines = ["gen %d" % g for g in cases]
+    variants = [0] * len(cases)
+    if only is None:
+        # the protocol must not depend on what is published or on who publishes: the same start values
+        # with a record that differs from the published one only in its status (1), with the same record
+        # again (2), and after a restart of the daemon over the file (3)
+        import random
+        rng = random.Random(res.seed * 31 + 11)
+        extra = [0, 1, 2, 3, 4, 5, 6, 7, 8, 100, 101, 32766, 32767, 32768, 65532, 65533, 65534, 65535]
+        extra += [rng.randrange(65536) for _ in range(150 if res.tier == "quick" else 600)]
+        for v in (1, 2, 3):
+            for g in extra:
+                cases.append(g); variants.append(v)
+    lines = ["gen %d" % g if v == 0 else "gen %d %d" % (g, v) for g, v in zip(cases, variants)]
     res.rule = ("all 65536 generation start values through the real write(); non-trivial = every case "
                 "(each start value is a distinct input); boundary classes counted in input_distribution")
     res.exhaustive = only is None
     binary, _ = c.build_harness("debug")
     impl = c.run_lines(binary, lines)
-    model = c.run_model(lines)
+    model = c.run_model(["gen %d" % g for g in cases])      # the model's generation step does not look at the record
     res.evaluations = len(lines)
     diffs, bad_inputs = [], []
-    for g, i, m in zip(cases, impl, model):
-        res.nontriv(g)
-        res.count("even_start" if g % 2 == 0 else "odd_start")
+    for g, v, i, m in zip(cases, variants, impl, model):
+        res.nontriv((g, v))
+        res.count(("even_start" if g % 2 == 0 else "odd_start") if v == 0 else ("variant:%s" % {1: "only the status differs", 2: "same record again", 3: "after a restart of the daemon"}[v]))
         if g in (0, 1, 2, 65533, 65534, 65535):
             res.count("boundary")
         gi, mid, post = (int(x) for x in i.split())
         why = predicate(gi, mid, post)
         if why:
-            bad_inputs.append({"start": g, "during_copy": mid, "after": post, "why": why, "model": m})
+            bad_inputs.append({"start": g, "variant": v, "during_copy": mid, "after": post, "why": why, "model": m})
         if i != m:
-            diffs.append({"start": g, "impl": i, "model": m})
+            diffs.append({"start": g, "variant": v, "impl": i, "model": m})
     res.samples = [{"case": l, "impl": i, "model": m} for l, i, m in list(zip(lines, impl, model))[:3] + list(zip(lines, impl, model))[-3:]]
     res.traces_validated = len(lines) - len(diffs)
     res.oblige("correspondence:gen-exhaustive", not diffs)
@@ -64,9 +76,11 @@ def run(res, proofs_ok, proofs_why, only=None):
 def replay(res, path):
     r = json.load(open(path))
     g = r.get("case", {}).get("start", 0)
+    v = r.get("case", {}).get("variant", 0)
     binary, _ = c.build_harness("debug")
-    line = ["gen %d" % g]
-    i, m = c.run_lines(binary, line)[0], c.run_model(line)[0]
+    # variants 1 and 2 refer to the record published just before: publish one first
+    line = (["gen %d" % ((g + 2) % 65536)] if v in (1, 2) else []) + ["gen %d %d" % (g, v)]
+    i, m = c.run_lines(binary, line)[-1], c.run_model(["gen %d" % g])[0]
     gi, mid, post = (int(x) for x in i.split())
     print("case gen %d\nimpl  %s\nmodel %s\npredicate: %s" % (g, i, m, predicate(gi, mid, post) or "holds"))
     return 1 if predicate(gi, mid, post) else 0
